@@ -1,0 +1,3 @@
+//! verification hooks: server (guarded by cfg ordinals_ord_verif)
+#![allow(unused_imports, dead_code)]
+use super::*;
